@@ -63,7 +63,9 @@ impl<'a> SocketWrite<'a> {
 
 impl EventSource for SocketWrite<'_> {
     fn subscribe(&mut self, co: CoroutineImpl) {
-        let io_data = self.io_data;
+        // an owned reference to the event data: once the coroutine is published another thread may resume it,
+        // `self` (on its stack) and the socket object may be gone before this function returns
+        let io_data = (**self.io_data).clone();
 
         #[cfg(feature = "io_timeout")]
         if let Some(dur) = self.timeout {
